@@ -140,8 +140,7 @@ macro_rules! at {
 }
 
 at!(array_extract__owned_n1_at0, 1, 0, 2);
-at!(array_extract__owned_n2_at0, 2, 0, 3);
-at!(array_extract__owned_n2_at1, 2, 1, 3);
+// NOT REGISTERED: n2 at 0 / at 1 (a one-element rest is dropped inside `extract`): no result in 300 s
 sized!(array_extract__borrowed_n0, extract_borrowed, 0, 3);
 sized!(array_extract__borrowed_n1, extract_borrowed, 1, 4);
 sized!(array_extract__borrowed_n3, extract_borrowed, 3, 6);
